@@ -4,6 +4,7 @@ import ast
 from ..index import AnalysisError, attr_chain, norm, own_nodes
 from ..query import calls_in, call_name, is_value_yield, lines, falsy_edges
 from ..condeval import check_cond
+from .common import borrowed
 from .common import (TLSCONN, TLSREC, nodes_with_call, consumes_of, getmsg_nodes, dead_edge_labels,
                      must_pass)
 
@@ -326,4 +327,5 @@ RULES = [
     ("C17.POSTFAIL", "quick", rule_postfail),
     ("C17.CLOSED", "quick", rule_closed),
     ("C17.FLUSH", "quick", rule_flush),
+    ("C17.SAME-SESSION", "quick", borrowed("c13", "rule_srv_gates", "C13.SRV-GATES", "C17.SAME-SESSION")),
 ]
